@@ -205,7 +205,8 @@ def write_frame_obligations(repo, tabs, roots, allowed, label):
     recs = []
     for key in sorted(reach):
         for w in frames.writes_of(repo, key):
-            ok = w.cls == "fresh" or any(key == u and (w.receiver == r or r == "*") for u, r in allowed)
+            bare_local = w.receiver.isidentifier() and w.receiver != "self"
+            ok = w.cls == "fresh" or any(key == u and (w.receiver == r or r == "*" or (r == "<local>" and bare_local)) for u, r in allowed)
             if key.endswith(".__init__") and w.cls == "self":
                 ok = True       # the object under construction is fresh for its constructor
             recs.append({"name": "%s/W/%s:%s@%d" % (key, w.what, w.receiver, w.line), "kind": "W",
@@ -231,7 +232,7 @@ VALIDATION_WRITES = [
     ("validators:RefResolver.push_scope", "self._scopes_stack"), ("validators:RefResolver.pop_scope", "self._scopes_stack"),
     ("validators:RefResolver.resolve_remote", "self.store.[]"), ("_utils:URIDict.__setitem__", "self.store.[]"),
     # pyrsistent.pmap.update / .remove are persistent operations returning a new map (assumed contract, DESIGN.md section 5)
-    ("_types:TypeChecker.redefine_many", "self._type_checkers"), ("_types:TypeChecker.remove", "checkers"),
+    ("_types:TypeChecker.redefine_many", "self._type_checkers"), ("_types:TypeChecker.remove", "<local>"),      # a local holding a persistent map (proved functional in contracts/tasks_types.py)
 ]
 
 
